@@ -27,7 +27,7 @@ def run(tier):
     rep = vlib.Report(PROP, tier)
     d = vlib.workdir(PROP, "trace")
     obs = []
-    # the differential corpus: TLC-generated cases of three grammars + a seeded fuzz corpus
+    # the differential corpus: TLC-generated cases of five grammars + a seeded fuzz corpus
     std_bin = vlib.build_harness()
     _, res, cases = vlib.tlc_chunked(PROP, "corpus", "MC_C03", nchunks=8)
     rep.add_tlc("MC_C03(corpus)", res)
@@ -35,7 +35,11 @@ def run(tier):
     rep.add_tlc("MC_C05(corpus)", res5)
     _, res10, cases10 = vlib.tlc_chunked(PROP, "corpus10", "MC_C10", nchunks=8)      # DTLS headers over grids of epochs / sequence numbers
     rep.add_tlc("MC_C10(corpus)", res10)
-    cases5 = cases5 + cases10
+    _, res13, cases13 = vlib.tlc_chunked(PROP, "corpus13", "MC_C13", nchunks=8)      # key-exchange parameters (derived parsers: an attribute may differ by feature)
+    rep.add_tlc("MC_C13(corpus)", res13)
+    _, res14, cases14 = vlib.tlc_chunked(PROP, "corpus14", "MC_C14", nchunks=8)
+    rep.add_tlc("MC_C14(corpus)", res14)
+    cases5 = cases5 + cases10 + cases13 + [c for c in cases14 if sum(len(sg["lit"]) + sg["fill"][2] for sg in c["input"]) < 20000]
     for k, c in enumerate(cases + cases5):
         c["id"] = k
     corpus = [{"id": c["id"], "fn": c["fn"], "a": c["a"], "input": c["input"]} for c in cases + cases5]
@@ -56,6 +60,10 @@ def run(tier):
                 e["note"] = str(ex)[:300]
                 obs.append(e)
                 continue
+            # (runs beside the rest) the same two records with 10.5 s of wall-clock time between the calls: what a parser answers does not
+            # depend on when it is asked - under any feature set
+            pz = os.path.join(d, "pause.%s.ndjson" % target)
+            pause_proc = subprocess.Popen([b, "defrag-pause", "10500", pz], stdout=subprocess.DEVNULL, stderr=subprocess.DEVNULL)
             out = os.path.join(d, "out.%s.ndjson" % target)
             vlib.run_harness(b, ["run", cpath, out])
             fz = os.path.join(d, "fuzz.%s.ndjson" % target)
@@ -75,6 +83,13 @@ def run(tier):
                 tp = os.path.join(d, "%s.%s.ndjson" % (sub, target))
                 vlib.run_harness(b, [sub, tp] + extra)
                 lines += [json.dumps(x, sort_keys=True) for x in vlib.read_ndjson(tp)]
+            if pause_proc.wait(timeout=120) != 0:
+                raise vlib.ToolError("defrag-pause failed under %s" % name)
+            pl = vlib.read_ndjson(pz)
+            lines += [json.dumps({k: v for k, v in x.items() if k != "run"}, sort_keys=True) for x in pl]
+            if len(pl) == 2 and {k: v for k, v in pl[0].items() if k != "run"} != {k: v for k, v in pl[1].items() if k != "run"}:
+                rep.violation("pause:%s" % name, {"config": name, "records": [[22, [20, 0, 0, 8, 1, 2, 3]], [22, [4, 5, 6, 7, 8]]], "pause_ms": 10500}, pl[0], pl[1],
+                              "under %s the defragmenter answers differently when 10.5 s pass between the two records of a message" % name, "sweep")
             outputs[name] = lines
             e["digest"] = hashlib.sha256("\n".join(lines).encode()).hexdigest()
             rep.count(len(lines))
